@@ -102,24 +102,97 @@ def probe_table():
     return {tid: probe_type(obj) for tid, obj in sorted(TypeDefinition.Definitions.items())}
 
 
-def probe_array_count():
-    """the count type the spec parser puts into `Array(type, <count type>)` for each value of the `endian` attribute"""
+ARRAY_FORMS = ('direct', 'inline-record', 'inline-message', 'def', 'def-renamed', 'def-in-message', 'double-inner', 'double-outer',
+               'double-def-inner', 'double-def-outer')
+
+
+def _count_types(type_text):
+    """the count-type class names of `Array(Array(Byte, C2), C1)`-style text, outermost first"""
+    import re
+    out = []
+    t = type_text
+    while True:
+        m = re.fullmatch(r'Array\((.*), (\w+)\)', t)
+        if not m:
+            break
+        out.append(m.group(2))
+        t = m.group(1)
+    return out, t
+
+
+def probe_array_count_forms():
+    """the count type the spec parser puts into `Array(type, <count type>)`, for each value of the `endian` attribute and each way an
+    array field can be declared: a FieldDef built directly, and fields read by the real `Parser` from XML — inline in a record / in
+    a message, through a `def=` reference to `<fielddef-root>` (with and without rename, in a record / in a message), and both
+    levels of `array="double"` (inline and through `def=`).  Returns {(endian, form): type id | 'unknown:…'}"""
+    import tempfile
     from nasdaq_protocols.common.types import TypeDefinition
     from nasdaq_protocols.common.message import parser
-    import re
     by_name = {}
     for tid, obj in TypeDefinition.Definitions.items():
         by_name.setdefault(getattr(obj, '__name__', str(obj)), tid)
     out = {}
+
+    def tid_of(cname):
+        return by_name.get(cname, 'unknown:' + cname)
     for attr in ('big', 'little', 'none'):
+        en = '' if attr == 'none' else f' endian="{attr}"'
         try:
             f = parser.FieldDef('x', type='byte', array='true', endian=None if attr == 'none' else attr)
-            t = f.get_codegen_context(parser.Definitions())['type']
-            m = re.fullmatch(r'Array\((\w+), (\w+)\)', t)
-            out[attr] = by_name.get(m.group(2), 'unknown:' + m.group(2)) if m and m.group(1) == 'Byte' else 'unknown:' + t
+            cts, base = _count_types(f.get_codegen_context(parser.Definitions())['type'])
+            out[(attr, 'direct')] = tid_of(cts[0]) if len(cts) == 1 and base == 'Byte' else 'unknown:shape'
         except Exception as e:  # noqa
-            out[attr] = 'unknown:' + err_name(e)
+            out[(attr, 'direct')] = 'unknown:' + err_name(e)
+        xml = f"""<root>
+  <fielddef-root>
+    <field name="arr_def" type="byte" array="single"{en}/>
+    <field name="dbl_def" type="byte" array="double"{en}/>
+  </fielddef-root>
+  <records-root>
+    <record id="rec"><fields>
+      <field name="inline_rec" type="byte" array="single"{en}/>
+      <field def="arr_def"/>
+      <field name="renamed" def="arr_def"/>
+      <field name="dbl_inline" type="byte" array="double"{en}/>
+      <field name="dbl_ref" def="dbl_def"/>
+    </fields></record>
+  </records-root>
+  <messages-root>
+    <message id="msg" message-id="1" message-group="g" direction="incoming"><fields>
+      <field name="inline_msg" type="byte" array="single"{en}/>
+      <field name="in_msg" def="arr_def"/>
+    </fields></message>
+  </messages-root>
+</root>"""
+        try:
+            with tempfile.NamedTemporaryFile('w', suffix='.xml', delete=False) as fh:
+                fh.write(xml)
+            defs = parser.Parser.parse(fh.name)
+            os.unlink(fh.name)
+            cc = defs.get_codegen_context()
+            fields = {f['name']: f['type'] for f in cc['records'][0]['fields']}
+            fields.update({f['name']: f['type'] for f in cc['messages'][0]['fields']})
+            single = {'inline-record': 'inline_rec', 'def': 'arr_def', 'def-renamed': 'renamed', 'inline-message': 'inline_msg',
+                      'def-in-message': 'in_msg'}
+            for form, name in single.items():
+                cts, base = _count_types(fields.get(name, ''))
+                out[(attr, form)] = tid_of(cts[0]) if len(cts) == 1 and base == 'Byte' else 'unknown:shape ' + fields.get(name, 'missing')
+            for pre, name in (('double', 'dbl_inline'), ('double-def', 'dbl_ref')):
+                cts, base = _count_types(fields.get(name, ''))
+                ok = len(cts) == 2 and base == 'Byte'
+                out[(attr, pre + '-outer')] = tid_of(cts[0]) if ok else 'unknown:shape ' + fields.get(name, 'missing')
+                out[(attr, pre + '-inner')] = tid_of(cts[1]) if ok else 'unknown:shape ' + fields.get(name, 'missing')
+        except Exception as e:  # noqa
+            for form in ARRAY_FORMS[1:]:
+                out[(attr, form)] = 'unknown:' + err_name(e)
     return out
+
+
+def probe_array_count():
+    """rows (endian attribute, count type id), one per declaration form (see `probe_array_count_forms`); `Props/C02.lean` proves
+    every row equals the documented count type of its endian attribute"""
+    forms = probe_array_count_forms()
+    return [(attr, forms[(attr, form)]) for attr in ('big', 'little', 'none') for form in ARRAY_FORMS]
 
 
 def lean_desc(d):
@@ -133,7 +206,7 @@ def lean_desc(d):
 
 def render_extracted(table, arrcount):
     rows = ',\n'.join(f'  ("{tid}", {lean_desc(d)})' for tid, d in sorted(table.items()))
-    arows = ',\n'.join(f'  ("{a}", "{t}")' for a, t in sorted(arrcount.items()))
+    arows = ',\n'.join(f'  ("{a}", "{t}")' for a, t in arrcount)
     return f'''import NasdaqModel.Spec.Layout
 /-
 GENERATED by harness/c02.py (`prebuild`) on every run of `./check C02` from the live library: behavioural probing of every entry of
@@ -251,12 +324,14 @@ def check_table(ctx):
         if got != want:
             ctx.violation(f'type id {tid}: the library binds it to {got}, the documentation says {want}',
                           {'kind': 'type-table', 'id': tid, 'probed': list(got) if got else None, 'documented': list(want) if want else None})
-    arr = probe_array_count()
-    for a in sorted(DOCUMENTED_ARRAY_COUNT):
+    forms = probe_array_count_forms()
+    arr = {a: forms[(a, 'direct')] for a in DOCUMENTED_ARRAY_COUNT}
+    for (a, form), got in sorted(forms.items()):
         ctx.count('array-count-row')
-        if arr.get(a) != DOCUMENTED_ARRAY_COUNT[a]:
-            ctx.violation(f'array field with endian={a}: count type {arr.get(a)}, documented {DOCUMENTED_ARRAY_COUNT[a]}',
-                          {'kind': 'array-count', 'endian': a, 'probed': arr.get(a)})
+        ctx.case(f'array count {a} {form}', nontrivial=True)
+        if got != DOCUMENTED_ARRAY_COUNT[a]:
+            ctx.violation(f'array field with endian={a} declared {form}: count type {got}, documented {DOCUMENTED_ARRAY_COUNT[a]}',
+                          {'kind': 'array-count', 'endian': a, 'form': form, 'probed': got})
     if ctx.driver.available:
         ans = ctx.driver.ask([f'bin.arrcount {a}' for a in sorted(arr)])
         for a, m in zip(sorted(arr), ans):
@@ -423,6 +498,60 @@ def run(ctx):
         run_messages(ctx, B, 150 if quick else 2500)
 
 
+def message_layout_case(ctx, B, style, defs, k, v, tail, iseed, v2, lines, expect):
+    """one message through the implementation against the documented layout; `v2`/`iseed`: the in-place update stage (None: skip)"""
+    import c01
+    import random
+    ind, body = defs[k]
+    reg = [[i, j, b[1:]] for j, (i, b) in enumerate(defs)]
+    rep = {'kind': 'msg-layout', 'style': style, 'reg': sx(reg), 'cls': k, 'val': sx(v), 'tail': tail.hex()}
+    if v2 is not None:
+        rep.update(val2=sx(v2), iseed=iseed)
+    try:
+        base, classes = c01.build_messages(B, None, style, defs)
+        msg = classes[k]()
+        rec = B.from_val(body, v, typed=True)
+        for name in list(rec.values):
+            setattr(msg, name, rec.values[name])
+        actual = bc.to_val(body, msg.record)
+        ref = bytes([ind]) + ref_layout(body, actual)
+        n, b = bc.guarded_call(msg.to_bytes)
+        if b != ref or n != len(ref):
+            ctx.violation(f'message bytes differ from [message-type byte] + documented body layout: {b[:24].hex()} vs {ref[:24].hex()}', rep)
+        m, dmsg = bc.guarded_call(lambda: base.from_bytes(ref + tail))
+        if type(dmsg) is not classes[k] or m != len(ref) or bc.reads_differ(body, msg.record, dmsg.record):
+            ctx.violation('the documented message layout does not decode to the message', rep)
+        lines.append(f'bin.msg.layout {ind} {sx(body[1:])} {sx(actual)}')
+        expect.append((sx(b), rep))
+        lines.append(f'bin.msg.dec {sx(reg)} {sx(ref + tail)}')
+        expect.append((f'ok {m} {k} {sx(bc.to_val(body, dmsg.record))}', rep))
+        # ---- the same message objects, updated IN PLACE after they have been encoded / decoded, must encode the layout of the
+        # values they hold now ("the bytes produced for a message are exactly the layout" is about every encoding, not the first)
+        if v2 is not None:
+            for which, obj in (('encoded', msg), ('decoded', dmsg)):
+                bc.guarded_call(obj.to_bytes)
+                bc.apply_in_place(B, body, obj.record, v2, random.Random(f'{iseed}-{which}'), top=obj)
+                actual2 = bc.to_val(body, obj.record)
+                ref2 = bytes([ind]) + ref_layout(body, actual2)
+                n2, b2 = bc.guarded_call(obj.to_bytes)
+                rep2 = dict(rep, now=sx(actual2), which=which)
+                ctx.count('msg:updated-in-place')
+                if bytes(b2) != ref2 or n2 != len(ref2):
+                    ctx.violation(f'a message ({which}, then updated in place) does not encode the layout of the values it holds now: '
+                                  f'{bytes(b2)[:24].hex()} vs {ref2[:24].hex()}', rep2)
+                lines.append(f'bin.msg.layout {ind} {sx(body[1:])} {sx(actual2)}')
+                expect.append((sx(bytes(b2)), rep2))
+    except Exception as e:  # noqa
+        ctx.violation(f'message layout check raised {err_name(e)}: {e!s:.80}', rep)
+
+
+def ask_messages(ctx, lines, expect):
+    if ctx.driver.available and lines:
+        for a, (g, rep) in zip(ctx.driver.ask(lines), expect):
+            if a != g:
+                ctx.disagree(f'message: model `{bc.short(a, 100)}` vs implementation `{bc.short(g, 100)}`', rep)
+
+
 def run_messages(ctx, B, n_cases):
     import c01
     rng = ctx.rng
@@ -435,34 +564,12 @@ def run_messages(ctx, B, n_cases):
         ind, body = defs[k]
         v = bc.gen_val(rng, body)
         tail = c01.gen_tail(rng)
-        reg = [[i, j, b[1:]] for j, (i, b) in enumerate(defs)]
-        rep = {'kind': 'msg-layout', 'style': style, 'reg': sx(reg), 'cls': k, 'val': sx(v), 'tail': tail.hex()}
+        v2 = bc.gen_val(rng, body) if rng.random() < 0.6 else None
+        iseed = rng.randrange(1 << 30)
         ctx.case(bc.short(f'msg {style} {ind} {sx(body)} {sx(v)}'), nontrivial=True, sample_every=53)
         ctx.count('msg:' + style)
-        try:
-            base, classes = c01.build_messages(B, rng, style, defs)
-            msg = classes[k]()
-            rec = B.from_val(body, v, typed=True)
-            for name in list(rec.values):
-                setattr(msg, name, rec.values[name])
-            actual = bc.to_val(body, msg.record)
-            ref = bytes([ind]) + ref_layout(body, actual)
-            n, b = bc.guarded_call(msg.to_bytes)
-            if b != ref or n != len(ref):
-                ctx.violation(f'message bytes differ from [message-type byte] + documented body layout: {b[:24].hex()} vs {ref[:24].hex()}', rep)
-            m, dmsg = bc.guarded_call(lambda: base.from_bytes(ref + tail))
-            if type(dmsg) is not classes[k] or m != len(ref) or bc.reads_differ(body, msg.record, dmsg.record):
-                ctx.violation('the documented message layout does not decode to the message', rep)
-            lines.append(f'bin.msg.layout {ind} {sx(body[1:])} {sx(actual)}')
-            expect.append((sx(b), rep))
-            lines.append(f'bin.msg.dec {sx(reg)} {sx(ref + tail)}')
-            expect.append((f'ok {m} {k} {sx(bc.to_val(body, dmsg.record))}', rep))
-        except Exception as e:  # noqa
-            ctx.violation(f'message layout check raised {err_name(e)}: {e!s:.80}', rep)
-    if ctx.driver.available and lines:
-        for a, (g, rep) in zip(ctx.driver.ask(lines), expect):
-            if a != g:
-                ctx.disagree(f'message: model `{bc.short(a, 100)}` vs implementation `{bc.short(g, 100)}`', rep)
+        message_layout_case(ctx, B, style, defs, k, v, tail, iseed, v2, lines, expect)
+    ask_messages(ctx, lines, expect)
 
 
 def replay(ctx, path):
@@ -476,6 +583,17 @@ def replay(ctx, path):
     B = bc.Builder()
     if rep.get('kind') in ('type-table', 'array-count'):
         check_table(ctx)
+        return
+    if rep.get('kind') == 'msg-layout' and 'reg' in rep:
+        from common import parse_sx
+        reg = parse_sx(rep['reg'])[0]
+        defs = [(int(i), ['record'] + [[int(n), bc.ty_from_parsed(t), bc.val_from_parsed(d)] for n, t, d in fs]) for i, _c, fs in reg]
+        lines, expect = [], []
+        message_layout_case(ctx, B, rep['style'], defs, int(rep['cls']), bc.parse_val(rep['val']), bytes.fromhex(rep.get('tail', '')),
+                            rep.get('iseed', 0), bc.parse_val(rep['val2']) if 'val2' in rep else None, lines, expect)
+        for ln, (g, _) in zip(lines, expect):
+            print('implementation:', bc.short(g, 200), ' <-', bc.short(ln, 120))
+        ask_messages(ctx, lines, expect)
         return
     if rep.get('kind') == 'raw-decode':
         ty, data = bc.parse_ty(rep['ty']), bytes.fromhex(rep['bytes'])
